@@ -121,7 +121,7 @@ def find_meshes(tier, seed):
     add('tri', *G.drop_cells(p, t, [4, 5, 10, 11, 16, 17]), 'tri-nonconvex')
     pq, tq = G.tensor_tri([0, 2, 4, 6], [0, 2, 4])
     add('tri', G.shear(pq, 3), tq, 'tri-sheared')
-    for _ in range(8 if th else 3):
+    for _ in range(16 if th else 3):
         add('tri', *U.delaunay_int(2, int(rng.integers(6, 16)), 12, rng), 'tri-delaunay')
         add('tri', *G.clustered_delaunay(2, rng, nbig=3, ncl=int(rng.integers(5, 9))), 'tri-delaunay-clustered')
     # ---- quadrilaterals
@@ -144,7 +144,7 @@ def find_meshes(tier, seed):
     p, t = G.tensor_tet([0, 1, 2], [0, 2, 3], [0, 1, 4])
     add('tet', *G.drop_cells(p, t, range(6)), 'tet-nonconvex')
     add('tet', G.shear(p, 2), t, 'tet-sheared')
-    for _ in range(6 if th else 2):
+    for _ in range(10 if th else 2):
         add('tet', *U.delaunay_int(3, int(rng.integers(6, 11)), 6, rng), 'tet-delaunay')
         add('tet', *G.clustered_delaunay(3, rng, nbig=2, ncl=int(rng.integers(4, 7)), box=8), 'tet-delaunay-clustered')
     # ---- hexahedra (boxes and parallelepipeds: planar faces)
